@@ -1,4 +1,7 @@
 import XfemmVerif.Properties.C03
+import XfemmVerif.Lemmas.SparseLemmas
+import XfemmVerif.Lemmas.ComplexField
+import XfemmVerif.Model.CSparse
 import Mathlib.Algebra.BigOperators.Group.Finset.Basic
 import Mathlib.Algebra.BigOperators.Ring.Finset
 import Mathlib.Tactic.Ring
@@ -80,5 +83,42 @@ theorem stiffness_independent_of_excitation (depth ex ey a kludge : α) (p q : V
 example : ∑ r ∈ range 2, (fun r => if r = 0 then (1 : ℚ) else 0) r * mulV 2 (fun r c => if r = c then 2 else -1) (fun c => if c = 1 then 1 else 0) r
     = ∑ r ∈ range 2, (fun c => if c = 1 then (1 : ℚ) else 0) r * mulV 2 (fun r c => if r = c then 2 else -1) (fun r => if r = 0 then 1 else 0) r := by
   apply bilinear_symm; intro r c; by_cases h : r = c <;> simp [h, eq_comm]
+
+/-! ### the same statements about the matrices the solver models store
+
+`Sparse.get M` — the matrix of a linear problem of `Model/Sparse.lean` (real solvers) or, at the scalar `Cx K`, of `Model/CSparse.lean`
+(the complex solver of the time-harmonic formulations) — is symmetric by construction (upper-triangle storage, `get_symm`), so the
+abstract theorems above apply to every system the assemblers build, real and complex-symmetric alike. -/
+section ModelSystems
+open XfemmVerif XfemmVerif.Sparse
+
+theorem model_system_superposes (M : LinProb α) (x1 x2 b1 b2 : ℕ → α) (a b : α)
+    (h1 : ∀ r < M.n, mulV M.n (get M) x1 r = b1 r) (h2 : ∀ r < M.n, mulV M.n (get M) x2 r = b2 r) :
+    ∀ r < M.n, mulV M.n (get M) (fun c => a * x1 c + b * x2 c) r = a * b1 r + b * b2 r :=
+  solution_superposes M.n (get M) x1 x2 b1 b2 a b h1 h2
+
+/-- **reciprocity of every stored system**: no symmetry hypothesis is left — the storage provides it -/
+theorem model_system_reciprocal (M : LinProb α) (free : ℕ → Prop) [DecidablePred free] (P V : ℕ → ℕ → α) (i j : ℕ)
+    (hP : ∀ a r, free r → P a r = 0) (hfix : ∀ a r, r < M.n → ¬ free r → V a r = P a r)
+    (hfree : ∀ a r, r < M.n → free r → mulV M.n (get M) (V a) r = 0) :
+    ∑ r ∈ range M.n, P j r * mulV M.n (get M) (V i) r = ∑ r ∈ range M.n, P i r * mulV M.n (get M) (V j) r :=
+  reciprocity M.n (get M) (get_symm M) free P V i j hP hfix hfree
+
+variable {K : Type} [Field K] [LinearOrder K] [IsStrictOrderedRing K] [AbsGt K] [LawfulAbsGt K]
+
+/-- … in particular of the complex-symmetric systems of the time-harmonic formulations (scalar `Cx K` with the `CComplex` operators):
+    complex mutual couplings are symmetric, `L₁₂ = L₂₁` as complex numbers -/
+theorem complex_system_reciprocal (M : CSparse.CLinProb K) (free : ℕ → Prop) [DecidablePred free] (P V : ℕ → ℕ → Cx K) (i j : ℕ)
+    (hP : ∀ a r, free r → P a r = 0) (hfix : ∀ a r, r < M.n → ¬ free r → V a r = P a r)
+    (hfree : ∀ a r, r < M.n → free r → mulV M.n (get M) (V a) r = 0) :
+    ∑ r ∈ range M.n, P j r * mulV M.n (get M) (V i) r = ∑ r ∈ range M.n, P i r * mulV M.n (get M) (V j) r :=
+  model_system_reciprocal M free P V i j hP hfix hfree
+
+theorem complex_system_superposes (M : CSparse.CLinProb K) (x1 x2 b1 b2 : ℕ → Cx K) (a b : Cx K)
+    (h1 : ∀ r < M.n, mulV M.n (get M) x1 r = b1 r) (h2 : ∀ r < M.n, mulV M.n (get M) x2 r = b2 r) :
+    ∀ r < M.n, mulV M.n (get M) (fun c => a * x1 c + b * x2 c) r = a * b1 r + b * b2 r :=
+  model_system_superposes M x1 x2 b1 b2 a b h1 h2
+
+end ModelSystems
 
 end XfemmVerif.C11
